@@ -2,9 +2,10 @@
   Model of class MDSDRV_Linker (/repo/src/platform/mdsdrv.cpp + mdsdrv.h) as it is after the
   `fix:` commits 81bf063 (get_seq_data keeps no state), 7ae57e5 (short ver/seq chunk),
   b42d7ed (PCM header outside pcmd), 80e619f (pointer slot outside the sequence), 27af62a
-  (pitch clamp before narrowing), c8da697 (identifier beginning with a digit), and the repair of
+  (pitch clamp before narrowing), c8da697 (identifier beginning with a digit), the repair of
   D11 (add_song re-homes the playback window `pcmd[position + start, +size)` of a PCM header and
-  passes `start = 0`; same commit as the Wave_Bank repair, see Model/Wave.lean).
+  passes `start = 0`; same commit as the Wave_Bank repair, see Model/Wave.lean), and 8d72d11 (sample
+  index of add_sample kept in an unsigned int).
 
   One definition per C++ function: `addSong` (chunk walk over Model/Riff, `checkVersion`, patch
   table, PCM re-homing through Model/Wave.addSample, group keying), `getSeqData` (bank layout,
@@ -21,7 +22,8 @@
   Narrowings made explicit:
     * `uint32_t addr = seq_sdata + id * 2` is `u32 (sdata + u32 (id * 2))`; it is stored in a
       `uint16_t` pair member: `% 65536`;
-    * `uint16_t offset = add_unique_data(..)` / `= wave_rom.add_sample(..)`: `% 65536`;
+    * `uint16_t offset = add_unique_data(..)`: `% 65536` (the result of `wave_rom.add_sample(..)` is an
+      `unsigned int` since fix 8d72d11 and indexes the headers as it is);
     * `data_offset[j.second & 0x7fff] | (j.second & 0x8000)` written by `write_be16`: low 16 bits;
     * `write_be16(data, 6, id - 1)`, the `uint16_t value` of `asm_define`/`c_define`: `% 65536`;
     * `write_be32` of offsets and `(position + start) | (cp << 24)`: `% 2^32` inside `be32`.
@@ -246,7 +248,7 @@ def addPcmh (sdata seqLen : Nat) (pcmd data : Bytes) (a : Acc) : Except Err Acc 
       match Wave.addSample a.wave { header with position := 0, start := 0 } sample with
       | .error e => .error (ofWaveErr e)
       | .ok (w, sidx) =>
-        match w.samples[sidx % 65536]? with
+        match w.samples[sidx]? with
         | none => .error .outOfRange
         | some h2 =>
           let r := addUnique a.bank (pcmHeader h2)
